@@ -42,7 +42,8 @@ for _q in ("sta", "smp", "gja", "pos", "neg"):
 
 
 def _relabel(ci, m):
-    return np.array([m[l - 1] for l in ci], dtype=int)
+    out = np.array([m[l - 1] for l in ci])
+    return out if out.dtype.kind == "f" else out.astype(int)
 
 
 def _order_preserving(m):
